@@ -17,7 +17,7 @@ def make(rnd, k):
     fsig = gen.gen_sig(rnd)
     kind = rnd.choice(['sync', 'sync', 'async', 'gen'])
     npre = rnd.randint(1, 3)
-    stack = [['pre', gen.gen_sval(rnd, ids, fsig, raising=.05)] for _ in range(npre)]
+    stack = [['pre', gen.gen_sval(rnd, ids, fsig, raising=.05, underscore_first=.3)] for _ in range(npre)]
     body = [['yield', ['locals']]] if kind == 'gen' else [['return', ['locals']]]
     driver, calls = [], []
     for j in range(rnd.randint(2, 4)):
@@ -85,6 +85,8 @@ def monitor(sc, obs):
         for v in pres:
             ran.append(v['id'])
             r = pyeval.verdict(v, f['sig'], args, kws)
+            if [p[0] for p in v['sig']] != ['_'] and pyeval.own_binding(v['sig'], args, kws) is None:
+                ran.pop()          # the call does not bind to the explicit validator's own signature: TypeError before its body starts
             if r[0] == 'accept':
                 continue
             expect_body = False
